@@ -71,6 +71,8 @@ def make_tables(tier, seed):
         ([2.5, 0.0, 1.0, 1.0, float('nan')], ['a', 'b', 'c', 'a', 'b']),
         ([float('nan'), 1.0], ['b', 'b']),
         ([0.0, 1.0, 2.5, 1.0, 0.0, 2.5], ['a', 'b', 'a', 'c', 'a', 'b']),
+        # magnitudes below the default absolute tolerance of numpy.isclose (1e-8): a result must not be "tidied" to zero
+        ([4e-9, 5e-9, 3e-9, 2e-9], ['a', 'b', 'a', 'b']),
     ]
     n_random = 3 if tier == 'quick' else 25
     for _ in range(n_random):
